@@ -57,13 +57,6 @@ Lemma upd2_other a2 t v u : u <> t -> upd2 a2 t v u = a2 u.
 Proof. unfold upd2. intros H. destruct (Nat.eqb_spec u t); congruence. Qed.
 Definition idle2 : tv2 := mkT2 None false.
 
-(** events that are not client events of a pop: what a push emits, and what leaves a pending pop pending *)
-Definition pushev (e : ev) : bool :=
-  match e with
-  | EvAcc _ _ _ => true
-  | EvCli n _ => negb (String.eqb n "inv_pop" || String.eqb n "ret_pop")
-  end.
-
 Section Push.
   Variable cap : nat.
   Hypothesis OK : slots_ok cap = true.
@@ -72,15 +65,6 @@ Section Push.
   Hypothesis Hbsz : cap < bsz.
   Notation Inv := (MsPqInv.Inv cap).
 
-  (** the phase discipline, abstractly: [Dm tr] = the claims of this layer are suspended (a pop is pending or the
-      discipline was broken); [Pm tr t] = thread t has a pending pop.  Instantiated in MsPqPop from a scan of the
-      trace; "no pop invoked so far" is the instance Dm = pop_invoked, Pm tr _ = (pop_invoked tr = true). *)
-  Variable Dm : list (nat * ev) -> bool.
-  Variable Pm : list (nat * ev) -> nat -> Prop.
-  Hypothesis HDpush : forall tr t es, forallb pushev es = true -> Dm (tr ++ Conc.tag t es) = Dm tr.
-  Hypothesis HPpush : forall tr t es u, forallb pushev es = true -> Pm tr u -> Pm (tr ++ Conc.tag t es) u.
-  Hypothesis HPD : forall tr u, Pm tr u -> Dm tr = true.
-
   Definition W_ok (g : G) (a2 : Aux2) : Prop := forall i t, cellt g i = TOwner t <-> own (a2 t) = Some i.
   Definition B_ok (g : G) : Prop :=
     forall k j x y, anc j k -> cellt g k = TAvail -> cellv g k = Some x -> cellv g j = Some y -> (prio x <= prio y)%Z.
@@ -88,9 +72,8 @@ Section Push.
     (forall t, pclear (tvs a1 t) = None) /\
     (forall t, hs (tvs a1 t) = true \/ pstore (tvs a1 t) <> None \/ own (a2 t) <> None -> inop (tvs a1 t) = true).
   Definition Ext (g : G) (a1 : Aux) (a2 : Aux2) (tr : list (nat * ev)) : Prop :=
-    (forall t, vpop (a2 t) = true -> Pm tr t) /\
-    (Dm tr = false -> W_ok g a2 /\ B_ok g /\ A_ok a1 a2) /\
-    (forall t, own (a2 t) <> None -> inop (tvs a1 t) = true).
+    (forall t, vpop (a2 t) = true -> pop_invoked tr = true) /\
+    (pop_invoked tr = false -> W_ok g a2 /\ B_ok g /\ A_ok a1 a2).
 
   Definition JAux := (Aux * Aux2)%type.
   Definition jview (a : JAux) (t : nat) : tv * tv2 := (tvs (fst a) t, snd a t).
@@ -98,15 +81,30 @@ Section Push.
   Notation safe1 := (@Conc.safe G V ev Aux tv view Inv).
   Notation jsafe := (@Conc.safe G V ev JAux (tv * tv2) jview JInv).
 
-  (** *** a step of a thread inside a pop: the claims stay suspended *)
-  Lemma Ext_susp g g' a1 a1' a2 tr tr' t :
-    (forall u, Pm tr u -> Pm tr' u) -> vpop (a2 t) = true -> own (a2 t) = None -> (forall u, u <> t -> tvs a1' u = tvs a1 u) ->
-    Ext g a1 a2 tr -> Ext g' a1' a2 tr'.
+  (** *** everything a pop executes lifts: [Ext] says nothing once "inv_pop" is in the trace *)
+  Lemma Ext_vpop g g' a1 a1' a2 tr es t :
+    vpop (a2 t) = true -> Ext g a1 a2 tr -> Ext g' a1' a2 (tr ++ es).
   Proof.
-    intros HP Hv Ho Hoth (E1 & E2 & E3). split; [|split].
-    - intros u Hu. apply HP. apply (E1 u Hu).
-    - intros Hf. rewrite (HPD tr' t (HP t (E1 t Hv))) in Hf. discriminate.
-    - intros u Hu. destruct (Nat.eq_dec u t) as [->|N]; [congruence|]. rewrite Hoth by exact N. apply (E3 u Hu).
+    intros Hv [E1 E2]. pose proof (E1 t Hv) as Hp. split.
+    - intros u Hu. apply pop_invoked_mono. apply (E1 u Hu).
+    - intros Hf. rewrite (pop_invoked_mono tr es Hp) in Hf. discriminate.
+  Qed.
+
+  Lemma lift_vpop {R} (p : prog R) : forall t l1 (Q1 : R -> tv -> Prop) P2,
+    vpop P2 = true -> safe1 t p l1 Q1 -> jsafe t p (l1, P2) (fun r l => Q1 r (fst l) /\ snd l = P2).
+  Proof.
+    induction p as [r|es k IH|f k IH]; intros t l1 Q1 P2 Hv H; cbn [Conc.safe] in *.
+    - auto.
+    - intros g [a1 a2] tr [Hi He] Hvw. unfold jview in Hvw. cbn [fst snd] in *. inversion Hvw as [[V1 V2]].
+      destruct (H g a1 tr Hi V1) as (a1' & K1 & K2 & K3). exists (a1', a2). split; [|split].
+      + split; [exact K1|]. cbn [fst snd]. apply (Ext_vpop g g a1 a1' a2 tr _ t); [rewrite V2; exact Hv|exact He].
+      + intros u Hu. unfold jview. cbn [fst snd]. f_equal. apply (K2 u Hu).
+      + unfold jview. cbn [fst snd]. rewrite V2. apply IH; [exact Hv|exact K3].
+    - intros g [a1 a2] tr [Hi He] Hvw. unfold jview in Hvw. cbn [fst snd] in *. inversion Hvw as [[V1 V2]].
+      destruct (H g a1 tr Hi V1) as (a1' & K1 & K2 & K3). exists (a1', a2). split; [|split].
+      + split; [exact K1|]. cbn [fst snd]. apply (Ext_vpop g _ a1 a1' a2 tr _ t); [rewrite V2; exact Hv|exact He].
+      + intros u Hu. unfold jview. cbn [fst snd]. f_equal. apply (K2 u Hu).
+      + unfold jview. cbn [fst snd]. rewrite V2. apply IH; [exact Hv|exact K3].
   Qed.
 
   (** *** [Ext] under steps that change neither cells nor ownership *)
@@ -114,17 +112,16 @@ Section Push.
     (forall i, cellt g' i = cellt g i) -> (forall i, cellv g' i = cellv g i) ->
     (forall u, u <> t -> tvs a1' u = tvs a1 u) -> pclear (tvs a1' t) = None ->
     (hs (tvs a1' t) = true \/ pstore (tvs a1' t) <> None \/ own (a2 t) <> None -> inop (tvs a1' t) = true) ->
-    forallb pushev es = true ->
-    Ext g a1 a2 tr -> Ext g' a1' a2 (tr ++ Conc.tag t es).
+    pop_invoked es = false ->
+    Ext g a1 a2 tr -> Ext g' a1' a2 (tr ++ es).
   Proof.
-    intros Ht Hv Hoth Hpc Hin Hes (E1 & E2 & E3). split; [|split].
-    - intros u Hu. apply HPpush; [exact Hes|]. apply (E1 u Hu).
-    - intros Hf. rewrite (HDpush tr t es Hes) in Hf. destruct (E2 Hf) as (HW & HB & [A1 A2]). split; [|split; [|split]].
+    intros Ht Hv Hoth Hpc Hin Hes [E1 E2]. split.
+    - intros u Hu. apply pop_invoked_mono. apply (E1 u Hu).
+    - intros Hf. destruct (E2 (pop_invoked_mono_f _ _ Hf)) as (HW & HB & [A1 A2]). split; [|split; [|split]].
       + intros i u. rewrite Ht. apply HW.
       + intros k j x y Ha. rewrite Ht, !Hv. apply HB. exact Ha.
       + intros u. destruct (Nat.eq_dec u t) as [->|N]; [exact Hpc|rewrite Hoth by exact N; apply A1].
       + intros u Hu. destruct (Nat.eq_dec u t) as [->|N]; [apply Hin; exact Hu|]. rewrite Hoth in Hu |- * by exact N. apply A2. exact Hu.
-    - intros u Hu. destruct (Nat.eq_dec u t) as [->|N]; [apply Hin; right; right; exact Hu|]. rewrite Hoth by exact N. apply (E3 u Hu).
   Qed.
 
   (** a cell in use at or below the counter: its slot number *)
@@ -157,7 +154,7 @@ Section Push.
     Ext g a1 a2 tr ->
     Ext (set_cell g i (TOwner t) (Some x)) a1' (upd2 a2 t (mkT2 (Some i) (vpop (a2 t)))) tr.
   Proof.
-    intros Hi HP Hps Hin Hown Hoth Hpc Hin' (E1 & E2 & E3). split; [|split].
+    intros Hi HP Hps Hin Hown Hoth Hpc Hin' [E1 E2]. split.
     - intros u Hu. destruct (Nat.eq_dec u t) as [->|N]; [rewrite upd2_same in Hu; cbn in Hu; apply (E1 t Hu)|rewrite upd2_other in Hu by exact N; apply (E1 u Hu)].
     - intros Hf. destruct (E2 Hf) as (HW & HB & HA). pose proof HA as [A1 A2].
       destruct (iO _ _ _ _ Hi) as (O1 & O2 & _).
@@ -183,19 +180,18 @@ Section Push.
       + intros u. destruct (Nat.eq_dec u t) as [->|N]; [exact Hpc|rewrite Hoth by exact N; apply A1].
       + intros u Hu. destruct (Nat.eq_dec u t) as [->|N]; [exact Hin'|]. rewrite Hoth in Hu |- * by exact N.
         rewrite upd2_other in Hu by exact N. apply A2. exact Hu.
-    - intros u Hu. destruct (Nat.eq_dec u t) as [->|N]; [exact Hin'|]. rewrite upd2_other in Hu by exact N. rewrite Hoth by exact N. apply (E3 u Hu).
   Qed.
 
   (** H2, first branch: the item at [i] (tagged with the thread) is larger than its Available parent: swap *)
   Lemma Ext_swap g a1 a2 tr t i a b :
     2 <= i -> cellt g i = TOwner t -> cellt g (Nat.div2 i) = TAvail ->
-    cellv g i = Some a -> cellv g (Nat.div2 i) = Some b -> (prio a > prio b)%Z -> inop (tvs a1 t) = true ->
+    cellv g i = Some a -> cellv g (Nat.div2 i) = Some b -> (prio a > prio b)%Z ->
     Ext g a1 a2 tr ->
     Ext (set_cell (set_cell g i TAvail (Some b)) (Nat.div2 i) (TOwner t) (Some a)) a1
         (upd2 a2 t (mkT2 (Some (Nat.div2 i)) (vpop (a2 t)))) tr.
   Proof.
-    intros Hi2 Hti Htp Hvi Hvp Hgt Hinop (E1 & E2 & E3). set (p := Nat.div2 i) in *.
-    assert (Hpi : p < i) by (apply div2_lt; lia). split; [|split].
+    intros Hi2 Hti Htp Hvi Hvp Hgt [E1 E2]. set (p := Nat.div2 i) in *.
+    assert (Hpi : p < i) by (apply div2_lt; lia). split.
     - intros u Hu. destruct (Nat.eq_dec u t) as [->|N]; [rewrite upd2_same in Hu; cbn in Hu; apply (E1 t Hu)|rewrite upd2_other in Hu by exact N; apply (E1 u Hu)].
     - intros Hf. destruct (E2 Hf) as (HW & HB & [A1 A2]).
       assert (Hown : own (a2 t) = Some i) by (apply HW; exact Hti).
@@ -230,7 +226,6 @@ Section Push.
       + intros u Hu. apply A2. destruct Hu as [Hu|[Hu|Hu]]; auto. destruct (Nat.eq_dec u t) as [->|N].
         * right. right. rewrite Hown. discriminate.
         * rewrite upd2_other in Hu by exact N. auto.
-    - intros u Hu. destruct (Nat.eq_dec u t) as [->|N]; [exact Hinop|]. rewrite upd2_other in Hu by exact N. apply (E3 u Hu).
   Qed.
 
   (** H2, second branch: not larger than the Available parent: the item stays, tagged Available *)
@@ -240,7 +235,7 @@ Section Push.
     Ext g a1 a2 tr ->
     Ext (set_cell g i TAvail (Some a)) a1 (upd2 a2 t (mkT2 None (vpop (a2 t)))) tr.
   Proof.
-    intros Hi2 Hti Htp Hvi Hvp Hle (E1 & E2 & E3). set (p := Nat.div2 i) in *. split; [|split].
+    intros Hi2 Hti Htp Hvi Hvp Hle [E1 E2]. set (p := Nat.div2 i) in *. split.
     - intros u Hu. destruct (Nat.eq_dec u t) as [->|N]; [rewrite upd2_same in Hu; cbn in Hu; apply (E1 t Hu)|rewrite upd2_other in Hu by exact N; apply (E1 u Hu)].
     - intros Hf. destruct (E2 Hf) as (HW & HB & [A1 A2]).
       assert (Hown : own (a2 t) = Some i) by (apply HW; exact Hti).
@@ -262,7 +257,6 @@ Section Push.
       + intros u Hu. apply A2. destruct Hu as [Hu|[Hu|Hu]]; auto. destruct (Nat.eq_dec u t) as [->|N].
         * rewrite upd2_same in Hu. cbn in Hu. congruence.
         * rewrite upd2_other in Hu by exact N. auto.
-    - intros u Hu. destruct (Nat.eq_dec u t) as [->|N]; [rewrite upd2_same in Hu; cbn in Hu; congruence|]. rewrite upd2_other in Hu by exact N. apply (E3 u Hu).
   Qed.
 
   (** H5: the item reached the top *)
@@ -270,7 +264,7 @@ Section Push.
     cellt g 1 = TOwner t -> cellv g 1 = Some a -> Ext g a1 a2 tr ->
     Ext (set_cell g 1 TAvail (Some a)) a1 (upd2 a2 t (mkT2 None (vpop (a2 t)))) tr.
   Proof.
-    intros Hti Hvi (E1 & E2 & E3). split; [|split].
+    intros Hti Hvi [E1 E2]. split.
     - intros u Hu. destruct (Nat.eq_dec u t) as [->|N]; [rewrite upd2_same in Hu; cbn in Hu; apply (E1 t Hu)|rewrite upd2_other in Hu by exact N; apply (E1 u Hu)].
     - intros Hf. destruct (E2 Hf) as (HW & HB & [A1 A2]).
       assert (Hown : own (a2 t) = Some 1) by (apply HW; exact Hti).
@@ -290,24 +284,19 @@ Section Push.
       + intros u Hu. apply A2. destruct Hu as [Hu|[Hu|Hu]]; auto. destruct (Nat.eq_dec u t) as [->|N].
         * rewrite upd2_same in Hu. cbn in Hu. congruence.
         * rewrite upd2_other in Hu by exact N. auto.
-    - intros u Hu. destruct (Nat.eq_dec u t) as [->|N]; [rewrite upd2_same in Hu; cbn in Hu; congruence|]. rewrite upd2_other in Hu by exact N. apply (E3 u Hu).
   Qed.
 
-  (** while the claims are suspended *)
-  Lemma Ext_dead g a1 a2 tr :
-    (forall t, vpop (a2 t) = true -> Pm tr t) -> (forall t, own (a2 t) <> None -> inop (tvs a1 t) = true) -> Dm tr = true -> Ext g a1 a2 tr.
-  Proof. intros H1 H3 H. split; [exact H1|]. split; [intros Hf; congruence|exact H3]. Qed.
+  (** once "inv_pop" is in the trace [Ext] holds of anything *)
+  Lemma Ext_dead g a1 a2 tr : pop_invoked tr = true -> Ext g a1 a2 tr.
+  Proof. intros H. split; [intros; exact H|intros Hf; congruence]. Qed.
 
-  (** a branch that cannot be taken while the claims are in force: any ownership view will do *)
+  (** a branch that cannot be taken while no pop has been invoked: any ownership view will do *)
   Lemma Ext_absurd g g' a1 a2 tr t o :
-    inop (tvs a1 t) = true ->
-    (Dm tr = false -> W_ok g a2 -> A_ok a1 a2 -> False) -> Ext g a1 a2 tr ->
+    (pop_invoked tr = false -> W_ok g a2 -> A_ok a1 a2 -> False) -> Ext g a1 a2 tr ->
     Ext g' a1 (upd2 a2 t (mkT2 o (vpop (a2 t)))) tr.
   Proof.
-    intros Hinop Habs (E1 & E2 & E3). destruct (Dm tr) eqn:Ep.
-    - apply Ext_dead; [| |exact Ep].
-      + intros u Hu. destruct (Nat.eq_dec u t) as [->|N]; [rewrite upd2_same in Hu; cbn in Hu; apply (E1 t Hu)|rewrite upd2_other in Hu by exact N; apply (E1 u Hu)].
-      + intros u Hu. destruct (Nat.eq_dec u t) as [->|N]; [exact Hinop|]. rewrite upd2_other in Hu by exact N. apply (E3 u Hu).
+    intros Habs [E1 E2]. destruct (pop_invoked tr) eqn:Ep.
+    - apply Ext_dead. exact Ep.
     - exfalso. destruct (E2 eq_refl) as (HW & _ & HA). apply Habs; auto.
   Qed.
 
@@ -333,7 +322,7 @@ Section Push.
 
   Lemma Ext_tr g g' a1 a2 tr es t :
     (forall i, cellt g' i = cellt g i) -> (forall i, cellv g' i = cellv g i) -> pushing (tvs a1 t) ->
-    forallb pushev es = true -> Ext g a1 a2 tr -> Ext g' a1 a2 (tr ++ Conc.tag t es).
+    pop_invoked es = false -> Ext g a1 a2 tr -> Ext g' a1 a2 (tr ++ es).
   Proof. intros Ht Hv [Hp Hin] Hes He. apply (Ext_same g g' a1 a1 a2 tr es t); auto. Qed.
 
   Lemma pop_invoked_tag_acc t k o ok es : pop_invoked (Conc.tag t (EvAcc k o ok :: es)) = pop_invoked (Conc.tag t es).
@@ -469,7 +458,7 @@ Section Push.
         destruct (cellv g1 p) as [b|] eqn:Eb; [|exists a1, a2; cbn [fst snd verr]; split; [apply Inv_irrelevant; [reflexivity|exact Hi1]|split; [apply (Ext_tr g1 g1 a1 a2 tr _ t); auto|split; [split; intros; reflexivity|split; [exact Hpush|discriminate]]]]].
         destruct (Z.gtb (prio a) (prio b)) eqn:Egt; cbn [fst snd verr vn unbusy] in *.
         * exists a1, (upd2 a2 t (mkT2 (Some p) (vpop (a2 t)))). split; [apply Inv_irrelevant; [reflexivity|exact K1]|]. split.
-          { rewrite Ep, Ei. pose proof (Ext_swap g1 a1 a2 tr t i a b ltac:(lia) Ei Ep Ea Eb ltac:(lia) (proj2 Hpush) He1) as K. fold p in K.
+          { rewrite Ep, Ei. pose proof (Ext_swap g1 a1 a2 tr t i a b ltac:(lia) Ei Ep Ea Eb ltac:(lia) He1) as K. fold p in K.
             apply Ext_acc; [exact Hpush|exact K]. }
           split; [split; [intros; reflexivity|intros u Hu; apply upd2_other; exact Hu]|]. split; [exact Hpush|]. intros _.
           apply (Hrest _ (mkV false p true None 0)); [split; [intros; reflexivity|intros u Hu; apply upd2_other; exact Hu]|].
@@ -482,7 +471,7 @@ Section Push.
           rewrite upd2_same, Hvp. reflexivity.
       + assert (Habs : forall o, (tag_eqb (cellt g1 p) TEmpty = true \/ negb (tag_eqb (cellt g1 i) (TOwner t)) = true) ->
                   Ext g1 a1 (upd2 a2 t (mkT2 o (vpop (a2 t)))) tr).
-        { intros o Hc. apply (Ext_absurd g1 g1 a1 a2 tr t o (proj2 Hpush)); [|exact He1]. intros _ HW HA.
+        { intros o Hc. apply (Ext_absurd g1 g1 a1 a2 tr t o); [|exact He1]. intros _ HW HA.
           assert (Eti : cellt g1 i = TOwner t) by (apply (W_tag g1 a2 t i HW); rewrite V2; reflexivity).
           destruct Hc as [Hc|Hc].
           - apply tag_eqb_eq in Hc. apply (parent_in_use g1 a1 a2 tr i Hi1 HA ltac:(lia)); [|exact Hc].
@@ -521,7 +510,7 @@ Section Push.
             - apply tag_eqb_eq in Et.
               assert (Hv : cellv g1 1 <> None) by (apply T_some; [apply (iT _ _ _ _ Hi1)|rewrite Et; discriminate]).
               destruct (cellv g1 1) as [a|] eqn:Ea; [|congruence]. apply (Ext_top g1 a1 a2 tr t a Et Ea He1).
-            - apply (Ext_absurd g1 g1 a1 a2 tr t None (proj2 Hpush)); [|exact He1]. intros _ HW _.
+            - apply (Ext_absurd g1 g1 a1 a2 tr t None); [|exact He1]. intros _ HW _.
               rewrite (W_tag g1 a2 t 1 HW ltac:(rewrite V2; reflexivity)) in Et. cbn in Et. rewrite Nat.eqb_refl in Et. discriminate. }
           apply Ext_acc; [exact Hpush|exact K]. }
         split; [split; [intros; reflexivity|intros u Hu; apply upd2_other; exact Hu]|]. split; [exact Hpush|]. intros _.
@@ -619,4 +608,147 @@ Section Push.
       intros [[]|] l' Hl'; cbn in Hl' |- *; [subst l'; split; reflexivity|exact I].
   Qed.
 
+  (** *** client operations, threads, initial state *)
+  Definition Qjop : bool -> tv * tv2 -> Prop := fun ok l' => ok = true -> l' = (idle, idle2).
+
+  Lemma pop_invoked_one t n args : String.eqb "inv_pop" n = false -> pop_invoked (Conc.tag t [EvCli n args]) = false.
+  Proof. intros H. cbn. unfold is_cli. rewrite String.eqb_sym, H. reflexivity. Qed.
+
+  Lemma jsafe_run_op hf lf t o : jsafe t (run_op cap bsz hf lf t o) (idle, idle2) Qjop.
+  Proof.
+    destruct o as [x|]; cbn [run_op Conc.safe].
+    - intros g [a1 a2] tr [Hi He] Hv. unfold jview in Hv. cbn [fst snd] in *. inversion Hv as [[V1 V2]].
+      pose proof (Inv_inv_push cap g a1 tr t idle x V1 eq_refl eq_refl eq_refl Hi) as H1.
+      cbn [set_inop set_hand idle hs hand pstore pclear inop pfail] in H1. set (b1 := set_held _ _) in H1.
+      assert (Hv1 : tvs b1 t = Vpush x) by (subst b1; cbn; rewrite Nat.eqb_refl; reflexivity).
+      assert (Hoth1 : forall u, u <> t -> tvs b1 u = tvs a1 u) by (intros u Hu; subst b1; cbn; destruct (Nat.eqb_spec u t); congruence).
+      exists (b1, a2). split; [split; [exact H1|]|].
+      { cbn [fst snd]. apply (Ext_same g g a1 b1 a2 tr _ t); es. }
+      split; [apply jframe; split; [exact Hoth1|intros; reflexivity]|].
+      unfold jview. cbn [fst snd]. rewrite Hv1, V2. apply Conc.safe_bind. eapply Conc.safe_weaken; [|apply jsafe_push].
+      intros [[|]|] [l1 l2] Hl'; unfold Qjpush, Qpush in Hl'; cbn in Hl'; cbn [Conc.safe].
+      + destruct Hl' as [E1 E2]. subst l1 l2. intros g2 [c1 c2] tr2 [Hi2 He2] Hv2. unfold jview in Hv2. cbn [fst snd] in *. inversion Hv2 as [[W1 W2]].
+        pose proof (Inv_ret cap g2 c1 tr2 t _ "ret_push" 1%Z x false W1 eq_refl eq_refl eq_refl eq_refl (or_introl eq_refl) eq_refl) as H2.
+        set (c1' := set_held (updv c1 t idle) (hdel t (held c1))).
+        assert (Hv1' : tvs c1' t = idle) by (subst c1'; cbn; rewrite Nat.eqb_refl; reflexivity).
+        assert (Hoth' : forall u, u <> t -> tvs c1' u = tvs c1 u) by (intros u Hu; subst c1'; cbn; destruct (Nat.eqb_spec u t); congruence).
+        exists (c1', c2). split; [split|split; [apply jframe; split; [exact Hoth'|intros; reflexivity]|]].
+        * apply H2; [destruct x; reflexivity|destruct x; discriminate|exact Hi2].
+        * cbn [fst snd]. apply (Ext_same g2 g2 c1 c1' c2 tr2 _ t); es.
+        * unfold jview. cbn [fst snd]. rewrite Hv1', W2. intros _. reflexivity.
+      + destruct Hl' as [E1 E2]. subst l1 l2. intros g2 [c1 c2] tr2 [Hi2 He2] Hv2. unfold jview in Hv2. cbn [fst snd] in *. inversion Hv2 as [[W1 W2]].
+        pose proof (Inv_ret cap g2 c1 tr2 t _ "ret_push" 0%Z x true W1 eq_refl eq_refl eq_refl eq_refl (or_introl eq_refl) eq_refl) as H2.
+        set (c1' := set_held (updv c1 t idle) (hdel t (held c1))).
+        assert (Hv1' : tvs c1' t = idle) by (subst c1'; cbn; rewrite Nat.eqb_refl; reflexivity).
+        assert (Hoth' : forall u, u <> t -> tvs c1' u = tvs c1 u) by (intros u Hu; subst c1'; cbn; destruct (Nat.eqb_spec u t); congruence).
+        exists (c1', c2). split; [split|split; [apply jframe; split; [exact Hoth'|intros; reflexivity]|]].
+        * apply H2; [destruct x; reflexivity|reflexivity|exact Hi2].
+        * cbn [fst snd]. apply (Ext_same g2 g2 c1 c1' c2 tr2 _ t); es.
+        * unfold jview. cbn [fst snd]. rewrite Hv1', W2. intros _. reflexivity.
+      + intros g2 [c1 c2] tr2 [Hi2 He2] Hv2. exists (c1, c2). split; [split; [apply Inv_irrelevant; [reflexivity|exact Hi2]|]|].
+        * cbn [fst snd] in *. destruct He2 as [E1 E2]. split.
+          -- intros u Hu. apply pop_invoked_mono. apply (E1 u Hu).
+          -- intros Hf. apply E2. apply (pop_invoked_mono_f _ _ Hf).
+        * split; [intros u Hu; reflexivity|]. intros E. discriminate.
+    - intros g [a1 a2] tr [Hi He] Hv. unfold jview in Hv. cbn [fst snd] in *. inversion Hv as [[V1 V2]].
+      pose proof (Inv_inv_pop cap g a1 tr t idle V1 eq_refl eq_refl Hi) as H1.
+      cbn [set_inop idle hs hand pstore pclear inop pfail] in H1.
+      set (b1 := updv a1 t (mkTv false None None None true false)) in *.
+      set (b2 := upd2 a2 t (mkT2 None true)).
+      assert (Hpi : pop_invoked (tr ++ Conc.tag t [EvCli "inv_pop" []]) = true) by (rewrite pop_invoked_app; cbn; apply orb_true_r).
+      exists (b1, b2). split; [split; [exact H1|apply Ext_dead; exact Hpi]|].
+      split; [apply jframe; split; [intros u Hu; apply tvs_updv_other; exact Hu|intros u Hu; apply upd2_other; exact Hu]|].
+      unfold jview. cbn [fst snd]. unfold b1, b2. rewrite tvs_updv_same, upd2_same. apply Conc.safe_bind.
+      eapply Conc.safe_weaken; [|apply (lift_vpop _ t _ _ (mkT2 None true) eq_refl (safe_pop cap OK bsz Hbsz hf lf t))].
+      intros [[x|]|] [l1 l2] [Hl1 Hl2]; cbn [fst snd] in *; subst l2; cbn [optQ] in Hl1; cbn [Conc.safe].
+      + unfold Qpop in Hl1. subst l1. intros g2 [c1 c2] tr2 [Hi2 He2] Hv2. unfold jview in Hv2. cbn [fst snd] in *. inversion Hv2 as [[W1 W2]].
+        pose proof (Inv_ret cap g2 c1 tr2 t _ "ret_pop" 1%Z x true W1 eq_refl eq_refl eq_refl eq_refl (or_intror eq_refl) eq_refl) as H2.
+        assert (Hp2 : pop_invoked tr2 = true) by (apply (proj1 He2 t); rewrite W2; reflexivity).
+        exists (set_held (updv c1 t idle) (hdel t (held c1)), upd2 c2 t idle2). split; [split|split].
+        * apply H2; [destruct x; reflexivity|destruct x; discriminate|exact Hi2].
+        * apply Ext_dead. apply pop_invoked_mono. exact Hp2.
+        * apply jframe. split; [intros u Hu; cbn; destruct (Nat.eqb_spec u t); congruence|intros u Hu; apply upd2_other; exact Hu].
+        * unfold jview. cbn [fst snd]. rewrite upd2_same. cbn. rewrite Nat.eqb_refl. intros _. reflexivity.
+      + unfold Qpop in Hl1. subst l1. intros g2 [c1 c2] tr2 [Hi2 He2] Hv2. unfold jview in Hv2. cbn [fst snd] in *. inversion Hv2 as [[W1 W2]].
+        pose proof (Inv_ret cap g2 c1 tr2 t _ "ret_pop" 0%Z (0%Z, 0%Z) false W1 eq_refl eq_refl eq_refl eq_refl (or_intror eq_refl) eq_refl) as H2.
+        assert (Hp2 : pop_invoked tr2 = true) by (apply (proj1 He2 t); rewrite W2; reflexivity).
+        exists (set_held (updv c1 t idle) (hdel t (held c1)), upd2 c2 t idle2). split; [split|split].
+        * apply H2; [reflexivity|discriminate|exact Hi2].
+        * apply Ext_dead. apply pop_invoked_mono. exact Hp2.
+        * apply jframe. split; [intros u Hu; cbn; destruct (Nat.eqb_spec u t); congruence|intros u Hu; apply upd2_other; exact Hu].
+        * unfold jview. cbn [fst snd]. rewrite upd2_same. cbn. rewrite Nat.eqb_refl. intros _. reflexivity.
+      + intros g2 [c1 c2] tr2 [Hi2 He2] Hv2. unfold jview in Hv2. cbn [fst snd] in *. inversion Hv2 as [[W1 W2]].
+        assert (Hp2 : pop_invoked tr2 = true) by (apply (proj1 He2 t); rewrite W2; reflexivity).
+        exists (c1, c2). split; [split; [apply Inv_irrelevant; [reflexivity|exact Hi2]|apply Ext_dead; apply pop_invoked_mono; exact Hp2]|].
+        split; [intros u Hu; reflexivity|]. intros E. discriminate.
+  Qed.
+
+  Lemma jsafe_run_ops hf lf t os : jsafe t (run_ops cap bsz hf lf t os) (idle, idle2) (@Conc.QTrue (tv * tv2)).
+  Proof.
+    induction os as [|o r IH]; cbn [run_ops]; [exact I|].
+    apply Conc.safe_bind. eapply Conc.safe_weaken; [|apply jsafe_run_op].
+    intros [|] l' Hl'; [rewrite (Hl' eq_refl); exact IH|exact I].
+  Qed.
+
+  Lemma jsafe_thread hf lf t os : jsafe t (thread_prog cap bsz hf lf t os) (idle, idle2) (@Conc.QTrue (tv * tv2)).
+  Proof.
+    unfold thread_prog. cbn [Conc.safe]. intros g [a1 a2] tr [Hi He] Hv. cbn [a_begin fst snd]. exists (a1, a2).
+    split; [split; [apply Inv_irrelevant; [reflexivity|exact Hi]|]|].
+    - cbn [fst snd] in *. destruct He as [E1 E2]. split.
+      + intros u Hu. apply pop_invoked_mono. apply (E1 u Hu).
+      + intros Hf. apply E2. apply (pop_invoked_mono_f _ _ Hf).
+    - split; [intros u Hu; reflexivity|]. rewrite Hv. apply jsafe_run_ops.
+  Qed.
+
+  Lemma jinit_ok hf lf ths : Conc.cfg_ok jview JInv (init_cfg cap bsz hf lf ths).
+  Proof.
+    exists (mkA (fun _ => idle) [], fun _ => idle2). split.
+    - split; [apply Inv_init|]. cbn [fst snd]. split; [intros t H; discriminate|]. intros _. split; [|split; [|split]].
+      + intros i t. cbn. split; discriminate.
+      + intros k j x y _ _ Hx. discriminate.
+      + intros t. reflexivity.
+      + intros t [H|[H|H]]; cbn in H; congruence.
+    - intros t p Hp. cbn [init_cfg Conc.threads] in Hp. destruct (nth_thread_progs cap bsz Hbsz hf lf ths 0 t p Hp) as [os ->].
+      cbn [Nat.add]. apply jsafe_thread.
+  Qed.
+
+  (** ** the theorem: after any number of concurrent pushes (no pop invoked so far), at quiescence, the heap is a
+         max-heap ([Good]: the cells in use are the first [count] slots, all tagged Available, every cell in use
+         is not larger than its parent) holding exactly the items of the successful pushes *)
+  Theorem mspq_push_phase_heap hf lf ths c :
+    Conc.reach (init_cfg cap bsz hf lf ths) c ->
+    pop_invoked (Conc.trace c) = false -> (forall t, pend (Conc.trace c) t = false) ->
+    Good (count (Conc.shared c)) (cellv (Conc.shared c)) (cellt (Conc.shared c)) /\
+    Permutation (heap_items cap (Conc.shared c) ++ given_back (Conc.trace c)) (invoked (Conc.trace c)).
+  Proof.
+    intros Hr Hnp Hq. destruct (Conc.reach_Inv (jinit_ok hf lf ths) Hr) as ([a1 a2] & Hi & He). cbn [fst snd] in *.
+    destruct He as [_ E2]. destruct (E2 Hnp) as (HW & HB & HA). pose proof HA as [A1 A2].
+    assert (Hidle : forall t, inop (tvs a1 t) = false) by (intros t; rewrite <- (iP _ _ _ _ Hi t); apply Hq).
+    assert (Hnone : forall t, hs (tvs a1 t) = false /\ pstore (tvs a1 t) = None /\ own (a2 t) = None).
+    { intros t. specialize (A2 t). specialize (Hidle t).
+      destruct (hs (tvs a1 t)) eqn:E1; [rewrite A2 in Hidle by auto; discriminate|].
+      destruct (pstore (tvs a1 t)) eqn:E2'; [rewrite A2 in Hidle by (right; left; discriminate); discriminate|].
+      destruct (own (a2 t)) eqn:E3; [rewrite A2 in Hidle by (right; right; discriminate); discriminate|]. auto. }
+    set (g := Conc.shared c) in *. pose proof (iC _ _ _ _ Hi) as [_ Hcap].
+    destruct (iO _ _ _ _ Hi) as (O1 & _ & _).
+    assert (HOcc : Occ (count g) (cellv g)).
+    { intros i. split.
+      - intros Hv. apply (occupied_slot g a1 a2 _ i Hi HA Hv).
+      - intros (j & Hj & <-). destruct (O1 j ltac:(lia)) as [K _]. destruct (K ltac:(lia)) as [K1|[u K1]]; [exact K1|].
+        destruct (Hnone u) as (_ & Hps & _). congruence. }
+    split.
+    - split; [exact HOcc|]. split; [split|].
+      + intros i Hv. apply (iT _ _ _ _ Hi). exact Hv.
+      + intros i Hv. destruct (cellt g i) as [| |u] eqn:Et; [|reflexivity|].
+        * exfalso. apply Hv. apply (iT _ _ _ _ Hi). exact Et.
+        * exfalso. apply HW in Et. destruct (Hnone u) as (_ & _ & Ho). congruence.
+      + intros k Hk x Hx.
+        assert (Hpo : cellv g (Nat.div2 k) <> None) by (apply (parent_occupied cap OK SH (count g) (cellv g) k Hcap HOcc Hk); rewrite Hx; discriminate).
+        destruct (cellv g (Nat.div2 k)) as [y|] eqn:Ey; [|congruence]. exists y. split; [reflexivity|].
+        apply (HB k (Nat.div2 k) x y (anc1 k Hk)); [|exact Hx|exact Ey].
+        destruct (cellt g k) as [| |u] eqn:Et; [|reflexivity|].
+        * exfalso. assert (cellv g k = None) by (apply (iT _ _ _ _ Hi); exact Et). congruence.
+        * exfalso. apply HW in Et. destruct (Hnone u) as (_ & _ & Ho). congruence.
+    - apply (mspq_conservation_quiescent cap OK bsz Hbsz hf lf ths c Hr Hq).
+  Qed.
 End Push.
